@@ -745,6 +745,17 @@ impl<T: Smp> Inst<T> {
         }
         // ---- output buffers
         let sent = T::from64(SENT);
+        // "out_fill": "garbage" - the caller's output buffers still hold frames of earlier use (finite, audio-like
+        // values, different in every slot) instead of the sentinel: the library must overwrite exactly the reported
+        // frames and never read from, or accumulate into, the output
+        let garbage = gs(op, "out_fill", "sentinel") == "garbage";
+        let fillv = move |c: usize, k: usize| -> T {
+            if garbage {
+                T::from64(0.125 + (((k * 31 + c * 7 + 3) % 97) as f64) / 128.0)
+            } else {
+                sent
+            }
+        };
         let mut wout: Vec<Vec<T>> = Vec::with_capacity(out_ch);
         for c in 0..out_ch {
             let mut len = match out_mode {
@@ -763,7 +774,7 @@ impl<T: Smp> Inst<T> {
             if c < nch && !active(c) && empty_masked {
                 len = 0;
             }
-            wout.push(vec![sent; len]);
+            wout.push((0..len).map(|k| fillv(c, k)).collect());
         }
         let mask_arg: Option<Vec<bool>> = match (&mask_v, op.get("mask_len")) {
             (_, Some(ml)) => {
@@ -891,7 +902,10 @@ impl<T: Smp> Inst<T> {
                 m.insert("variant".into(), json!(v));
                 m.insert("ef".into(), json!(f));
                 // anything written?
-                let dirty = wout.iter().any(|v| v.iter().any(|x| x.bits64() != sent.bits64()));
+                let dirty = wout
+                    .iter()
+                    .enumerate()
+                    .any(|(c, v)| v.iter().enumerate().any(|(k, x)| x.bits64() != fillv(c, k).bits64()));
                 m.insert("dirty_beyond".into(), json!(dirty));
             }
             Ok(Ok(o)) => {
@@ -932,7 +946,7 @@ impl<T: Smp> Inst<T> {
                         } else {
                             let mut h = 0i64;
                             for (k, x) in v.iter().enumerate() {
-                                if x.bits64() != sent.bits64() {
+                                if x.bits64() != fillv(c, k).bits64() {
                                     h = k as i64 + 1;
                                 }
                             }
@@ -949,7 +963,7 @@ impl<T: Smp> Inst<T> {
                     } else {
                         hi.push(if by_vec { v.len() as i64 } else { 0 });
                         dig.push(String::new());
-                        if !by_vec && v.iter().any(|x| x.bits64() != sent.bits64()) {
+                        if !by_vec && v.iter().enumerate().any(|(k, x)| x.bits64() != fillv(c, k).bits64()) {
                             dirty_masked = true;
                         }
                     }
